@@ -10,6 +10,9 @@ mod godump;
 mod c17;
 mod c19;
 mod goscope;
+mod c13;
+mod c15;
+mod c16;
 mod probe;
 mod rng;
 mod sexp;
@@ -31,6 +34,9 @@ fn main() {
         "c11" => c11::main(&args),
         "c17" => c17::main(&args),
         "c19" => c19::main(&args),
+        "c13" => c13::main(&args),
+        "c15" => c15::main(&args),
+        "c16" => c16::main(&args),
         "probe" => probe::main(&args),
         other => {
             eprintln!("unknown subcommand {}", other);
